@@ -228,6 +228,11 @@ func runIPCalc(args []string) error {
 			p = ps[r.Intn(len(ps))]
 		}
 		base := maskTo(u128{pick64(), pick64()}, p)
+		if r.Intn(10) == 0 {
+			// addresses that happen to lie in ::ffff:0:0/96 (16-byte addresses To4() is non-nil for) are 128-bit addresses like any other
+			p = 96 + r.Intn(33)
+			base = maskTo(u128{0, 0xffff<<32 | uint64(r.Uint32())}, p)
+		}
 		if r.Intn(2) == 0 {
 			// offset: x = base + k blocks + delta (when that does not wrap), or any x >= base
 			x := u128{pick64(), pick64()}
